@@ -85,6 +85,8 @@ def model_fingerprint(t: pydsdl.CompositeType) -> typing.Any:
     def attrs(c: pydsdl.CompositeType) -> typing.Any:
         return [(type(a).__name__, a.name, str(a.data_type), str(getattr(a, "value", None) and a.value.native_value)) for a in c.attributes]
 
+    if isinstance(t, pydsdl.ServiceType):
+        return [type(t).__name__, t.full_name, (t.version.major, t.version.minor), t.deprecated, t.fixed_port_id, model_fingerprint(t.request_type), model_fingerprint(t.response_type)]
     parts = [type(t).__name__, t.full_name, (t.version.major, t.version.minor), t.deprecated, t.fixed_port_id, t.extent, (t.bit_length_set.min, t.bit_length_set.max), attrs(t)]
     if isinstance(t, pydsdl.DelimitedType):
         parts.append(model_fingerprint(t.inner_type))
@@ -274,24 +276,45 @@ def _work(job: tuple) -> dict:
                             if isinstance(et, pydsdl.UnsignedIntegerType) and et.bit_length == 8:
                                 forms.append(("bytes", lambda L: bytes(int(x) & 0xFF for x in L)))
                                 forms.append(("str", lambda L: "".join(chr(65 + (int(x) % 26)) for x in L)))
+                            if isinstance(et, pydsdl.IntegerType):
+                                # other objects that expose the buffer protocol: the ELEMENTS are what is assigned, whatever the
+                                # item size or shape of the buffer (None = this form cannot express L)
+                                import array as _array
+
+                                def _fits(L: list, hi: int) -> bool:
+                                    return all(isinstance(x, int) and not isinstance(x, bool) and 0 <= x <= hi for x in L)
+
+                                forms.append(("bytearray", lambda L: bytearray(L) if _fits(L, 255) else None))
+                                forms.append(("memoryview_B", lambda L: memoryview(bytes(L)) if _fits(L, 255) else None))
+                                forms.append(("memoryview_H", lambda L: memoryview(_array.array("H", L)) if _fits(L, 65535) else None))
+                                forms.append(("memoryview_2d", lambda L: memoryview(bytes(L)).cast("B", (2, len(L) // 2)) if _fits(L, 255) and len(L) >= 2 and len(L) % 2 == 0 else None))
                         for n in good_lens:
                             L = [elem_value(et, py, i) for i in range(n)]
                             for fname, fn in forms:
                                 if fname == "ndarray_float64" and any(isinstance(x, float) and (x != x or math.isinf(x)) for x in L) and not isinstance(et, pydsdl.FloatType):
                                     continue
+                                val = fn(L)
+                                if val is None:
+                                    continue
                                 evals += 1
                                 try:
-                                    setattr(o, f.name, fn(L))
+                                    setattr(o, f.name, val)
                                     if len(getattr(o, f.name)) != n:
                                         bag.add({"kind": "array_length_altered", "form": fname}, {"type": d.body, "field": f.name, "n": n}, f"{d.name}.{f.name}: length {n} stored as {len(getattr(o, f.name))}")
+                                    elif fname not in ("str", "ndarray_float64") and isinstance(et, pydsdl.PrimitiveType) and not same(list(getattr(o, f.name)), L if fname != "bytes" else [int(x) & 0xFF for x in L]):
+                                        bag.add({"kind": "array_elements_altered", "form": fname, "feature": feature(d)}, {"type": d.body, "field": f.name, "value": repr(L)[:200], "stored": repr(list(getattr(o, f.name)))[:200]}, f"{d.name}.{f.name}: {fname} of {L!r:.80} stored as {list(getattr(o, f.name))!r:.80}")
                                 except Exception as e:  # pylint: disable=broad-except
-                                    if fname == "list" or fname == "ndarray_same_dtype":
+                                    if fname in ("list", "ndarray_same_dtype", "bytearray", "memoryview_B", "memoryview_H", "memoryview_2d"):
                                         bag.add({"kind": "valid_array_rejected", "form": fname, "exc": type(e).__name__, "feature": feature(d)}, {"type": d.body, "field": f.name, "n": n, "value": repr(L)[:200]}, f"{d.name}.{f.name}: valid array of length {n} ({fname}) raised {type(e).__name__}: {e}")
                         for n in bad_lens:
                             L = [elem_value(et, py, i) for i in range(n)]
                             for fname, fn in forms:
                                 if fname == "ndarray_float64" and not isinstance(et, pydsdl.FloatType):
                                     L = [x if not (isinstance(x, float) and (x != x or math.isinf(x))) else 0 for x in L]
+                                if fname == "memoryview_2d" and len(L) % 2:
+                                    L = L + L[:1]  # a 2-D view needs an even element count: one more element beyond the capacity
+                                if fn(L) is None or (len(L) == cap if fixed else len(L) <= cap):
+                                    continue
                                 for via in ("setter", "ctor"):
                                     evals += 1
                                     nontrivial += 1
@@ -419,18 +442,95 @@ def _work_namesakes(job: tuple) -> dict:
     return {"bag": bag, "evals": evals}
 
 
+REDEFINITIONS: typing.List[typing.Tuple[str, typing.Dict[str, str], typing.Dict[str, str]]] = [
+    # (label, definition A, definition B): same full name and version, same kind, same bit length set
+    ("field_renamed", {"rg/T.1.0.dsdl": "uint8 level\n@sealed\n"}, {"rg/T.1.0.dsdl": "uint8 depth\n@sealed\n"}),
+    ("field_signedness", {"rg/T.1.0.dsdl": "uint8 x\n@sealed\n"}, {"rg/T.1.0.dsdl": "int8 x\n@sealed\n"}),
+    ("constant_value", {"rg/T.1.0.dsdl": "uint8 K = 1\nuint8 x\n@sealed\n"}, {"rg/T.1.0.dsdl": "uint8 K = 2\nuint8 x\n@sealed\n"}),
+    ("port_id", {"rg/300.T.1.0.dsdl": "uint8 x\n@sealed\n"}, {"rg/301.T.1.0.dsdl": "uint8 x\n@sealed\n"}),
+    ("deprecated", {"rg/T.1.0.dsdl": "uint8 x\n@sealed\n"}, {"rg/T.1.0.dsdl": "@deprecated\nuint8 x\n@sealed\n"}),
+    ("array_kind", {"rg/T.1.0.dsdl": "uint8 n\nuint8[3] v\n@sealed\n"}, {"rg/T.1.0.dsdl": "uint8[4] v\n@sealed\n"}),
+    ("union_option_renamed", {"rg/T.1.0.dsdl": "@union\nuint8 a\nuint16 b\n@sealed\n"}, {"rg/T.1.0.dsdl": "@union\nuint8 a\nuint16 c\n@sealed\n"}),
+    ("service_response", {"rg/400.T.1.0.dsdl": "uint8 q\n@sealed\n---\nuint8 ok\n@sealed\n"}, {"rg/401.T.1.0.dsdl": "uint8 q\n@sealed\n---\nuint8 status\n@sealed\n"}),
+    ("nested_changed", {"rg/I.1.0.dsdl": "uint8 a\n@sealed\n", "rg/T.1.0.dsdl": "rg.I.1.0 i\n@sealed\n"}, {"rg/I.1.0.dsdl": "uint8 b\n@sealed\n", "rg/T.1.0.dsdl": "rg.I.1.0 i\n@sealed\n"}),
+]
+
+
+def _work_redefinitions(job: tuple) -> dict:
+    """One interpreter generates Python for a definition, then for a DIFFERENT definition of the same full name and version
+    (an edited .dsdl file in a long-lived process: language server, build daemon, test session). After every generation the
+    freshly imported classes must embed the model of the definition they were generated from. Histories: A,B / B,A / A,B,A."""
+    scratch, thorough = job
+    import importlib
+    import pathlib
+    import sys
+
+    from vf import gen
+
+    bag = Bag()
+    evals = 0
+    root = pathlib.Path(scratch) / "redef"
+    for label, da, db in REDEFINITIONS:
+        for hname, hist in (("A,B", (da, db)), ("B,A", (db, da)), ("A,B,A", (da, db, da))):
+            for step, files in enumerate(hist):
+                work = root / f"{label}_{hname.replace(',', '')}_{step}"
+                gen.write_ns(work / "dsdl", files)
+                out = work / "out"
+                try:
+                    gen.generate("py", work / "dsdl" / "rg", out)
+                except Exception as e:  # pylint: disable=broad-except
+                    bag.add({"kind": "regeneration_raises", "what": label, "exc": type(e).__name__}, {"history": hname, "step": step, "files": files}, f"redefinition {label} [{hname}] step {step}: generation raised {type(e).__name__}: {e}")
+                    break
+                types = pydsdl.read_namespace(str(work / "dsdl" / "rg"), [], allow_unregulated_fixed_port_id=True)
+                for m in [k for k in list(sys.modules) if k == "nunavut_support" or k == "rg" or k.startswith("rg.")]:
+                    del sys.modules[m]
+                sys.path.insert(0, str(out))
+                importlib.invalidate_caches()
+                try:
+                    mod = importlib.import_module("rg")
+                    ns = importlib.import_module("nunavut_support")
+                    for t in types:
+                        cls = getattr(mod, f"{t.short_name}_{t.version.major}_{t.version.minor}")
+                        pairs = [(cls, t)] if not isinstance(t, pydsdl.ServiceType) else [(cls, t), (cls.Request, t.request_type), (cls.Response, t.response_type)]
+                        for c, model in pairs:
+                            evals += 1
+                            m = getattr(c, "_MODEL_", None)
+                            if m is None or model_fingerprint(m) != model_fingerprint(model):
+                                bag.add(
+                                    {"kind": "model_stale_after_redefinition", "what": label, "history": hname if step else "first"},
+                                    {"history": hname, "step": step, "files": files, "embedded": repr(model_fingerprint(m))[:400] if m is not None else None, "source": repr(model_fingerprint(model))[:400]},
+                                    f"redefinition {label} [{hname}] step {step}: {c.__name__}._MODEL_ is not the model of the definition it was generated from",
+                                )
+                            if isinstance(model, pydsdl.ServiceType):
+                                continue
+                            try:
+                                o = c()
+                                b = ns.to_builtin(o)
+                                o2 = ns.update_from_builtin(c(), b)
+                                if b"".join(bytes(x) for x in ns.serialize(o)) != b"".join(bytes(x) for x in ns.serialize(o2)):
+                                    bag.add({"kind": "builtin_roundtrip_differs", "feature": "redefinition:" + label}, {"history": hname, "step": step}, f"redefinition {label} [{hname}] step {step}: builtin round trip changed the bytes")
+                            except Exception as e:  # pylint: disable=broad-except
+                                bag.add({"kind": "builtin_roundtrip_raises", "feature": "redefinition:" + label, "exc": type(e).__name__}, {"history": hname, "step": step, "files": files}, f"redefinition {label} [{hname}] step {step}: builtin round trip raised {type(e).__name__}: {e}")
+                finally:
+                    sys.path.remove(str(out))
+    return {"bag": bag, "evals": evals}
+
+
 def run(ctx: Ctx) -> int:
     defs = E.select(ctx, space.universe(ctx.thorough))
     shards = E.make_shards(defs, 16 if not ctx.thorough else 40)
     jobs = E.debug_filter([(i, sh, ctx.scratch, ctx.thorough) for i, sh in enumerate(shards)])
     import multiprocessing as mp
 
-    with mp.get_context("fork").Pool(min(ctx.workers, len(jobs) + 1)) as pool:
+    with mp.get_context("fork").Pool(min(ctx.workers, len(jobs) + 2)) as pool:
         a1 = pool.map_async(_work, jobs, 1)
         a2 = pool.apply_async(_work_namesakes, ((str(ctx.scratch), ctx.thorough),))
-        results, nres = a1.get(), a2.get()
+        a3 = pool.apply_async(_work_redefinitions, ((str(ctx.scratch), ctx.thorough),))
+        results, nres, rres = a1.get(), a2.get(), a3.get()
     ctx.bag.merge(nres["bag"])
+    ctx.bag.merge(rres["bag"])
     ctx.stats["namesake_evaluations"] = nres["evals"]
+    ctx.stats["redefinition_evaluations"] = rres["evals"]
     outcomes: typing.Set[str] = set()
     for r in results:
         ctx.bag.merge(r["bag"])
@@ -450,7 +550,8 @@ def run(ctx: Ctx) -> int:
         "rule": "one evaluation = one candidate assigned to one field through the setter or the constructor, one union setter event, one "
         "model comparison or one builtin round trip; non-trivial = out-of-range / wrong-length candidates and union events",
         "bound_completed": f"{ctx.stats['types']} types; per field: min, max, min-1, max+1, +-2^70, numpy scalars, wrong types; arrays: lengths 0, cap, cap+1, cap+7, "
-        f"fixed+-1 as list / ndarray / bytes / str; unions: all histories of <=3 (valid|invalid) setter events from every constructor",
+        f"fixed+-1 as list / ndarray / bytes / str / bytearray / memoryview (1-D bytes, 16-bit items, 2-D); unions: all histories of <=3 (valid|invalid) setter events from every "
+        f"constructor; {len(REDEFINITIONS)} redefinitions of one type x histories A,B / B,A / A,B,A in one interpreter",
         "exhaustive": bool(ctx.thorough),
     }
     return ctx.finish(
